@@ -1,6 +1,7 @@
 import HexProofs.Manager.Trim
 import HexProofs.Manager2.TrimTf
 import HexProofs.Manager2.ShiftInst
+import HexProofs.Manager2.TwinSched
 import HexProofs.Lib.IntInst
 import HexProps.C03
 /-
@@ -11,8 +12,10 @@ per-indicator SHIFT invariance.  Proved here for the purely recursive LEAF kinds
 Counter; EMA and RMA once seeded): `readings_unchanged_by_trimming_reading` (one reading, through
 the engine's dispatch) and `readings_unchanged_by_trimming_append_*` (one whole `Indicator.append`
 on a trimmed indicator next to its untrimmed twin: resume index, skip test, loop, writes); plus
-the single-reading shift lemmas of the windowed start-up / look-back kinds SMA, EMA, ROC.  The
-schedule-level statement for all covered leaf kinds is `C15b_FULL` (not proved; see there).
+the single-reading shift lemmas of the windowed start-up / look-back kinds SMA, EMA, ROC.  Over a
+WHOLE schedule (construction, `calculate()`, any appends): `C15b_partial` (HLA, TR, OBV, Counter)
+and `readings_unchanged_by_trimming_schedule_ema/_rma` (seeded at construction).  The schedule-level
+statement for all covered leaf kinds is `C15b_FULL` (see there for what is missing).
 -/
 namespace Hex.C15
 open Hex Hex.C03
@@ -283,8 +286,8 @@ theorem readings_unchanged_by_trimming_roc_window (x : Ctx F) (d : Nat) (p : Int
 
 /-- **One `append` on a trimmed indicator next to its untrimmed twin – HLA, TR, OBV, Counter.**
 `a`: the finished candles of the untrimmed twin; the trimmed indicator holds `a.drop d₀`.  Both
-receive `new`.  If the trim of this append (result `r`) leaves two already finished candles – or
-one that the loop's skip test passes over – (`KeepOK`), the trimmed indicator ends with exactly
+receive `new`.  If the trim of this append (result `r`) leaves ONE already finished candle – the
+predecessor of the first new candle – (`KeepOK`), the trimmed indicator ends with exactly
 the untrimmed twin's candles minus the popped ones: identical readings on every retained candle,
 and the same exception if a reading raises.  Covers `_find_calc_index` on the popped list, the
 skip test, the index shift of every read and of the write. -/
@@ -292,7 +295,7 @@ theorem readings_unchanged_by_trimming_append_free (ind : Ind F) (hl : IsLeaf in
     (life : Int) (a new r : List (Candle F)) (d₀ : Nat) (actA actB : Int) (hd₀ : d₀ ≤ a.length)
     (hfin : ∀ c ∈ a, hasKey ind.name c = true) (hnew : ∀ c ∈ new, Plain c) (hne : new ≠ [])
     (htrim : trimCandles (some life) (a.drop d₀ ++ new) = .ok r)
-    (hkeep : KeepOK ind.name a (a.length + new.length - r.length)) :
+    (hkeep : KeepOK a (a.length + new.length - r.length)) :
     candlesOf (IndState.append ({ tree := ind, mgr := { cfg := cfgLife life, candles := a.drop d₀ }, active := actB } : IndState F) new)
       = (candlesOf (IndState.append ({ tree := ind, mgr := { cfg := {}, candles := a }, active := actA } : IndState F)
           new)).map (·.drop (a.length + new.length - r.length)) :=
@@ -304,7 +307,7 @@ theorem readings_unchanged_by_trimming_append_ema (ind : Ind F) (hl : IsLeaf ind
     (life : Int) (a new r : List (Candle F)) (d₀ : Nat) (actA actB : Int) (hd₀ : d₀ ≤ a.length)
     (hfin : ∀ c ∈ a, hasKey ind.name c = true) (hnew : ∀ c ∈ new, Plain c) (hne : new ≠ [])
     (htrim : trimCandles (some life) (a.drop d₀ ++ new) = .ok r)
-    (hkeep : KeepOK ind.name a (a.length + new.length - r.length))
+    (hkeep : KeepOK a (a.length + new.length - r.length))
     (hseed : (Ctx.lastReading ind.name a).isNone = false) :
     candlesOf (IndState.append ({ tree := ind, mgr := { cfg := cfgLife life, candles := a.drop d₀ }, active := actB } : IndState F) new)
       = (candlesOf (IndState.append ({ tree := ind, mgr := { cfg := {}, candles := a }, active := actA } : IndState F)
@@ -318,7 +321,7 @@ theorem readings_unchanged_by_trimming_append_rma (ind : Ind F) (hl : IsLeaf ind
     (life : Int) (a new r : List (Candle F)) (d₀ : Nat) (actA actB : Int) (hd₀ : d₀ ≤ a.length)
     (hfin : ∀ c ∈ a, hasKey ind.name c = true) (hnew : ∀ c ∈ new, Plain c) (hne : new ≠ [])
     (htrim : trimCandles (some life) (a.drop d₀ ++ new) = .ok r)
-    (hkeep : KeepOK ind.name a (a.length + new.length - r.length))
+    (hkeep : KeepOK a (a.length + new.length - r.length))
     (hseed : (Ctx.lastReading ind.name a).isNone = false) :
     candlesOf (IndState.append ({ tree := ind, mgr := { cfg := cfgLife life, candles := a.drop d₀ }, active := actB } : IndState F) new)
       = (candlesOf (IndState.append ({ tree := ind, mgr := { cfg := {}, candles := a }, active := actA } : IndState F)
@@ -326,75 +329,136 @@ theorem readings_unchanged_by_trimming_append_rma (ind : Ind F) (hl : IsLeaf ind
   append_trimmed ind hl (rmaShiftOK ind p input hk hname) life a new r d₀ actA actB hd₀ hfin hnew hne htrim hkeep
     (seeded_at_end a new ind.name hne hseed)
 
-/-- two retained finished candles always satisfy `KeepOK` -/
-theorem keep_two (name : String) (a new r : List (Candle F)) (h : new.length + 2 ≤ r.length)
-    (hr : r.length ≤ a.length + new.length) : KeepOK name a (a.length + new.length - r.length) :=
-  keepOK_of_two name a new r h hr
+/-- one retained finished candle satisfies `KeepOK` -/
+theorem keep_one (a new r : List (Candle F)) (h : new.length + 1 ≤ r.length)
+    (hr : r.length ≤ a.length + new.length) : KeepOK a (a.length + new.length - r.length) :=
+  keepOK_of_one a new r h hr
 
-/-! #### the full second clause (NOT proved) -/
+/-! #### the second clause over a whole schedule -/
 
 /-- finished candles that must survive each trim, per leaf kind, for every state (`none`: kind not
-covered by this statement).  `2` is what `_find_calc_index` needs to resume at the first new candle;
+covered by this statement).  `1` is the one predecessor of a purely recursive kind (since the repair
+of `_find_calc_index` – its backward scan inspects index 0 – the resume logic needs no more);
 `period`-sized entries are the start-up windows / explicit look-backs. -/
 def lookBack : Kind F → Option Nat
-  | .hla | .tr | .obv | .counter .. => some 2
-  | .ema p _ _ | .rma p _ => some (max 2 (p - 1).toNat)
-  | .wma p _ | .vwma p => some (max 2 (p - 1).toNat)
-  | .sma p _ | .roc p _ => some (max 2 p.toNat)
+  | .hla | .tr | .obv | .counter .. => some 1
+  | .ema p _ _ | .rma p _ => some (max 1 (p - 1).toNat)
+  | .wma p _ | .vwma p => some (max 1 (p - 1).toNat)
+  | .sma p _ | .roc p _ => some (max 1 p.toNat)
   | _ => none
 
-/-- at every append the lifespan manager either has not popped anything yet, or still holds `L`
-candles from before that append -/
-def Retains (L : Nat) (life : Int) (init : List (Candle F)) (chunks : List (List (Candle F))) : Prop :=
-  (∀ m : Manager F, runSchedule (cfgLife life) init [] = .ok m → m.candles.length = init.length) ∧
-  ∀ k, k < chunks.length → ∀ m : Manager F, runSchedule (cfgLife life) init (chunks.take (k + 1)) = .ok m →
-    m.candles.length = (init ++ (chunks.take (k + 1)).flatten).length ∨
-    (chunks[k]?.getD []).length + L ≤ m.candles.length
-
-/-- **C15, second clause, full strength for leaf indicators** (NOT proved).  For every covered
-leaf kind and every schedule that retains the kind's look-back at every append, the lifespan-trimmed
-indicator ends with the candles of its untrimmed twin minus the popped ones (same readings, same
-exception).  Missing: (1) the induction over the schedule (the one-append theorems above are its
-step; what is left is carrying "the twin is finished / seeded" from append to append and expressing
-`KeepOK` through the timestamps of the stream); (2) unseeded EMA / RMA and SMA, ROC, WMA, VWMA at the
-loop level (their single-reading shift lemmas are above / analogous); (3) HL, Donchian, Aroon,
-Amorph; (4) every composite indicator (sub-indicators, managed helpers) and Hexital; (5) the
-combination with a timeframe. -/
+/-- **C15, second clause, full strength for leaf indicators** (proved for HLA, TR, OBV, Counter:
+`C15b_partial`; for EMA / RMA seeded at construction: `readings_unchanged_by_trimming_schedule_ema/_rma`).
+The hypothesis is on the raw lifespan manager only (`RetainsFrom L`, HexProofs/Manager2/TwinSched.lean):
+nothing is popped at construction, every trim succeeds, and at every non-empty append either
+nothing has been popped so far or at least `L` candles from before the append are retained.  Then
+the lifespan-trimmed indicator ends with the candles of its untrimmed twin minus the popped ones:
+same readings on every retained candle, same exception if a reading raises.
+Missing: (1) unseeded EMA / RMA and SMA, ROC, WMA, VWMA at the loop level (the single-reading
+shift lemmas of SMA, EMA, ROC are above; the loop needs their reachable-state invariants);
+(2) HL, Donchian, Aroon, Amorph (`lookBack = none`); (3) every composite indicator (sub-indicators,
+managed helpers) and Hexital; (4) the combination with a timeframe (first clause: `schedule_tf`). -/
 def C15b_FULL : Prop :=
   ∀ (k : Kind F) (name : String) (round : Nat) (L : Nat), Covered name k → lookBack k = some L →
-    ∀ (life : Int) (init : List (Candle F)) (chunks : List (List (Candle F))), 0 ≤ life →
-      (∀ c ∈ init ++ chunks.flatten, Plain c) → SortedStamped (init ++ chunks.flatten) →
-      Retains L life init chunks →
+    ∀ (life : Int) (init : List (Candle F)) (chunks : List (List (Candle F))),
+      (∀ c ∈ init ++ chunks.flatten, Plain c) → trimCandles (some life) init = .ok init →
+      RetainsFrom L life init init.length chunks →
       ∃ d, candlesOf (runIndicator (mkTop k name round) (cfgLife life) init chunks)
         = (candlesOf (runIndicator (mkTop k name round) {} init chunks)).map (·.drop d)
+
+/-- **Every append schedule – HLA, TR, OBV, Counter** (the instances of `C15b_FULL` with look-back
+1: ONE predecessor retained at every append that pops).  Construction, `calculate()` and any sequence of appends: the trimmed indicator's candles are
+the untrimmed twin's candles minus the popped ones. -/
+theorem C15b_partial (k : Kind F) (name : String) (round : Nat) (hc : Covered name k) (hk : OnePredFree k)
+    (life : Int) (init : List (Candle F)) (chunks : List (List (Candle F)))
+    (hp : ∀ c ∈ init ++ chunks.flatten, Plain c) (hinit : trimCandles (some life) init = .ok init)
+    (hret : RetainsFrom 1 life init init.length chunks) :
+    ∃ d, candlesOf (runIndicator (mkTop k name round) (cfgLife life) init chunks)
+      = (candlesOf (runIndicator (mkTop k name round) {} init chunks)).map (·.drop d) := by
+  obtain ⟨K⟩ := hc.contract round
+  exact twin_schedule_free (mkTop k name round) (hc.isLeaf round) K (by rw [mkTop_kind]; exact hk)
+    life init chunks hp hinit hret
+
+theorem lookBack_free (k : Kind F) (hk : OnePredFree k) : lookBack k = some 1 := by
+  cases hk <;> rfl
+
+/-- **Every append schedule – EMA**, when the recurrence is already seeded after construction (the
+last candle of the constructed indicator holds a non-`None` EMA); ONE retained predecessor then
+suffices at every append. -/
+theorem readings_unchanged_by_trimming_schedule_ema (p : Int) (input : String) (sm : Num F) (name : String)
+    (round : Nat) (hc : Covered name (.ema p input sm)) (hname : IsKey name)
+    (life : Int) (init : List (Candle F)) (chunks : List (List (Candle F)))
+    (hp : ∀ c ∈ init ++ chunks.flatten, Plain c) (hinit : trimCandles (some life) init = .ok init)
+    (hseed : ∀ a, rowMajor (mkTop (.ema p input sm) name round) init = .ok a → SeededEnd name a)
+    (hret : RetainsFrom 1 life init init.length chunks) :
+    ∃ d, candlesOf (runIndicator (mkTop (.ema p input sm) name round) (cfgLife life) init chunks)
+      = (candlesOf (runIndicator (mkTop (.ema p input sm) name round) {} init chunks)).map (·.drop d) := by
+  obtain ⟨K⟩ := hc.contract round
+  exact twin_schedule_ema _ (hc.isLeaf round) K p input sm (mkTop_kind _ _ _)
+    (by rw [mkTop_name]; exact hname) life init chunks hp hinit
+    (by intro a ha; rw [mkTop_name]; exact hseed a ha) hret
+
+/-- **Every append schedule – RMA** (Wilder), seeded after construction -/
+theorem readings_unchanged_by_trimming_schedule_rma (p : Int) (input : String) (name : String)
+    (round : Nat) (hc : Covered (F := F) name (.rma p input)) (hname : IsKey name)
+    (life : Int) (init : List (Candle F)) (chunks : List (List (Candle F)))
+    (hp : ∀ c ∈ init ++ chunks.flatten, Plain c) (hinit : trimCandles (some life) init = .ok init)
+    (hseed : ∀ a, rowMajor (mkTop (.rma p input) name round) init = .ok a → SeededEnd name a)
+    (hret : RetainsFrom 1 life init init.length chunks) :
+    ∃ d, candlesOf (runIndicator (mkTop (.rma p input) name round) (cfgLife life) init chunks)
+      = (candlesOf (runIndicator (mkTop (.rma p input) name round) {} init chunks)).map (·.drop d) := by
+  obtain ⟨K⟩ := hc.contract round
+  exact twin_schedule_rma _ (hc.isLeaf round) K p input (mkTop_kind _ _ _)
+    (by rw [mkTop_name]; exact hname) life init chunks hp hinit
+    (by intro a ha; rw [mkTop_name]; exact hseed a ha) hret
 
 /-! #### non-vacuity of the one-append theorems -/
 
 def obvDemo : Ind Int := mkTop .obv "OBV" 4
 
-/-- three finished candles (60, 120, 180) of the untrimmed twin, one new candle (240) -/
+/-- three finished candles (60, 120, 180) of the untrimmed twin, one new candle (300) -/
 def demoA : List (Candle Int) :=
   [ { o := .int 1, h := .int 3, l := .int 1, c := .int 2, v := .int 10, ts := some 60, inds := [("OBV", .int 10)] },
     { o := .int 2, h := .int 5, l := .int 2, c := .int 4, v := .int 20, ts := some 120, inds := [("OBV", .int 30)] },
     { o := .int 4, h := .int 4, l := .int 0, c := .int 1, v := .int 5, ts := some 180, inds := [("OBV", .int 25)] } ]
 def demoNew : List (Candle Int) :=
-  [ { o := .int 1, h := .int 2, l := .int 1, c := .int 2, v := .int 7, ts := some 240 } ]
+  [ { o := .int 1, h := .int 2, l := .int 1, c := .int 2, v := .int 7, ts := some 300 } ]
 
 example : IsLeaf obvDemo := isLeaf_mkTop _ _ _ rfl rfl
 example : OnePredFree obvDemo.kind := .obv
 example : ∀ c ∈ demoA, hasKey obvDemo.name c = true := by decide
 example : ∀ c ∈ demoNew, Plain c := by decide
-/-- lifespan 150 s: the append of the candle stamped 240 pops the candle stamped 60 -/
-example : trimCandles (some 150) (demoA.drop 0 ++ demoNew) = .ok ((demoA ++ demoNew).drop 1) := rfl
-example : KeepOK obvDemo.name demoA (demoA.length + demoNew.length - ((demoA ++ demoNew).drop 1).length) :=
-  keep_two _ demoA demoNew _ (by decide) (by decide)
+/-- lifespan 120 s: the append of the candle stamped 300 pops the candles stamped 60 and 120 –
+exactly ONE finished candle (180) is retained -/
+example : trimCandles (some 120) (demoA.drop 0 ++ demoNew) = .ok ((demoA ++ demoNew).drop 2) := rfl
+example : KeepOK demoA (demoA.length + demoNew.length - ((demoA ++ demoNew).drop 2).length) :=
+  keep_one demoA demoNew _ (by decide) (by decide)
 
 /-- all hypotheses of the one-append theorem hold together on the demo -/
 example :
-    candlesOf (IndState.append ({ tree := obvDemo, mgr := { cfg := cfgLife 150, candles := demoA.drop 0 }, active := 2 } : IndState Int) demoNew)
+    candlesOf (IndState.append ({ tree := obvDemo, mgr := { cfg := cfgLife 120, candles := demoA.drop 0 }, active := 2 } : IndState Int) demoNew)
       = (candlesOf (IndState.append ({ tree := obvDemo, mgr := { cfg := {}, candles := demoA }, active := 2 } : IndState Int)
-          demoNew)).map (·.drop (demoA.length + demoNew.length - ((demoA ++ demoNew).drop 1).length)) :=
-  readings_unchanged_by_trimming_append_free obvDemo (isLeaf_mkTop _ _ _ rfl rfl) .obv 150 demoA demoNew _ 0 2 2
-    (by decide) (by decide) (by decide) (by decide) rfl (keep_two _ demoA demoNew _ (by decide) (by decide))
+          demoNew)).map (·.drop (demoA.length + demoNew.length - ((demoA ++ demoNew).drop 2).length)) :=
+  readings_unchanged_by_trimming_append_free obvDemo (isLeaf_mkTop _ _ _ rfl rfl) .obv 120 demoA demoNew _ 0 2 2
+    (by decide) (by decide) (by decide) (by decide) rfl (keep_one demoA demoNew _ (by decide) (by decide))
+
+/-- raw candles for the schedule theorem: construct with three (nothing popped), append the candle
+stamped 300 (lifespan 120 s pops 60 and 120: ONE predecessor is retained), then an empty chunk -/
+def demoRaw : List (Candle Int) :=
+  [ { o := .int 1, h := .int 3, l := .int 1, c := .int 2, v := .int 10, ts := some 60 },
+    { o := .int 2, h := .int 5, l := .int 2, c := .int 4, v := .int 20, ts := some 120 },
+    { o := .int 4, h := .int 4, l := .int 0, c := .int 1, v := .int 5, ts := some 180 } ]
+
+example : ∀ c ∈ demoRaw ++ [demoNew, []].flatten, Plain c := by decide
+example : trimCandles (some 120) demoRaw = .ok demoRaw := rfl
+example : RetainsFrom 1 120 demoRaw demoRaw.length [demoNew, []] :=
+  Or.inr ⟨by decide, (demoRaw ++ demoNew).drop 2, rfl, Or.inr (by decide), Or.inl ⟨rfl, trivial⟩⟩
+example : Covered (F := Int) "OBV" .obv := .obv
+
+/-- the schedule theorem applied to the demo -/
+example : ∃ d, candlesOf (runIndicator (mkTop (F := Int) .obv "OBV" 4) (cfgLife 120) demoRaw [demoNew, []])
+    = (candlesOf (runIndicator (mkTop (F := Int) .obv "OBV" 4) {} demoRaw [demoNew, []])).map (·.drop d) :=
+  C15b_partial .obv "OBV" 4 .obv .obv 120 demoRaw [demoNew, []] (by decide) rfl
+    (Or.inr ⟨by decide, (demoRaw ++ demoNew).drop 2, rfl, Or.inr (by decide), Or.inl ⟨rfl, trivial⟩⟩)
 
 end Hex.C15
